@@ -39,71 +39,76 @@ class ErrorFunction:
         return self.seen.get(k)
 
 
-def finite_difference_obligation(vtypes, m=2):
+def finite_difference_obligation(vtypes, m=2, second_state=True):
     def fn(it):
         poses = [sym_pose(t, "x%d" % k, unit=True) for k, t in enumerate(vtypes)]
-        originals = [Pose(p.cls, list(p.data)) for p in poses]
         verts = [it.construct("Vertex", [Poly.const(10 + k), poses[k]]) for k in range(len(vtypes))]
         edge = custom_edge(it, [Poly.const(10 + k) for k in range(len(vtypes))], None, None, verts)
         E = ErrorFunction(edge, m)
         edge.stubs["calc_error"] = E
-        eps_expr = it.pkg.lookup("BaseEdge", "_NUMERICAL_DIFFERENTIATION_EPSILON")
-        J = it.call_method(edge, "calc_jacobians", [])
-        if not isinstance(J, (list, tuple)) or len(J) != len(vtypes):
-            raise ObFail("calc_jacobians returns %r, expected one Jacobian per vertex (%d)" % (type(J).__name__, len(vtypes)))
-        E0 = E.at(it, originals)
-        if E0 is None:
-            raise ObFail("the unperturbed error is never evaluated")
-        # the pose of every vertex is restored (same class, same components) and is a pose object again
-        for k, v in enumerate(verts):
-            now = ga(v, "pose")
-            pose_equal(it, now, originals[k], "after calc_jacobians the pose of vertex %d differs from its original value" % k, allow_neg_quat=False)
         eps_seen = set()
-        for k, t in enumerate(vtypes):
-            c = CDIM[t]
-            Jk = J[k]
-            if not isinstance(Jk, Arr) or Jk.shape != (m, c):
-                raise ObFail("Jacobian %d has shape %s, expected (%d, %d)" % (k, getattr(Jk, "shape", None), m, c))
-            for d in range(c):
-                col = [Jk.data[r][d] for r in range(m)]
-                if any(not isinstance(x, Poly) for x in col):
-                    raise ObFail("column %d of the Jacobian of vertex %d is divided by a value that depends on the pose: the step is not "
-                                 "the documented constant 1e-6" % (d, k))
-                # identify epsilon from the column: col = (E_pert - E0) / eps  with E_pert the error at exactly one perturbed configuration
-                match = None
-                for key, vec in E.seen.items():
-                    for r in range(m):
-                        pass
-                    num = [vec.data[r] - E0.data[r] for r in range(m)]
-                    # col[r] * eps == num[r] for a single rational eps
-                    cr = col[0]
-                    if len(cr.t) != 2:
-                        continue
-                    coefs = {mm: cc for mm, cc in cr.t.items()}
-                    nt = num[0].t
-                    if set(coefs) != set(nt) or not nt:
-                        continue
-                    ratio = None
-                    ok = True
-                    for mm in nt:
-                        q = Fraction(nt[mm]) / Fraction(coefs[mm])
-                        ratio = q if ratio is None else ratio
-                        ok = ok and q == ratio
-                    if ok and all((col[r].scale(ratio) == num[r]) for r in range(m)):
-                        match = (key, ratio)
-                        break
-                if match is None:
-                    raise ObFail("column %d of the Jacobian of vertex %d is not (E(perturbed) - E(unperturbed)) / eps for any evaluated configuration: %s" % (d, k, col[0].short(120)))
-                key, eps = match
-                eps_seen.add(eps)
-                # the perturbed configuration must be: vertex k moved by boxplus with eps * e_d, everything else untouched
-                delta = Arr([Poly.const(eps if j == d else 0) for j in range(c)], 1)
-                moved = it.call_method(originals[k], "__iadd__", [delta])
-                exp_cfg = [moved if j == k else originals[j] for j in range(len(vtypes))]
-                exp_key = tuple((p.cls, tuple(x.key() for x in p.data)) for p in exp_cfg)
-                if key != exp_key:
-                    raise ObFail("column %d of the Jacobian of vertex %d is a difference quotient, but not at pose [+] eps*e_%d with the other "
-                                 "vertices (and the other coordinates) unperturbed" % (d, k, d))
+
+        def verify(label):
+            originals = [Pose(ga(v, "pose").cls, list(ga(v, "pose").data)) for v in verts]
+            J = it.call_method(edge, "calc_jacobians", [])
+            if not isinstance(J, (list, tuple)) or len(J) != len(vtypes):
+                raise ObFail("%scalc_jacobians returns %r, expected one Jacobian per vertex (%d)" % (label, type(J).__name__, len(vtypes)))
+            E0 = E.at(it, originals)
+            if E0 is None:
+                raise ObFail("%sthe unperturbed error is never evaluated" % label)
+            # the pose of every vertex is restored (same class, same components) and is a pose object again
+            for k, v in enumerate(verts):
+                now = ga(v, "pose")
+                pose_equal(it, now, originals[k], "%safter calc_jacobians the pose of vertex %d differs from its original value" % (label, k), allow_neg_quat=False)
+            for k, t in enumerate(vtypes):
+                c = CDIM[t]
+                Jk = J[k]
+                if not isinstance(Jk, Arr) or Jk.shape != (m, c):
+                    raise ObFail("%sJacobian %d has shape %s, expected (%d, %d)" % (label, k, getattr(Jk, "shape", None), m, c))
+                for d in range(c):
+                    col = [Jk.data[r][d] for r in range(m)]
+                    if any(not isinstance(x, Poly) for x in col):
+                        raise ObFail("%scolumn %d of the Jacobian of vertex %d is divided by a value that depends on the pose: the step is not "
+                                     "the documented constant 1e-6" % (label, d, k))
+                    # identify epsilon from the column: col = (E_pert - E0) / eps  with E_pert the error at exactly one perturbed configuration
+                    match = None
+                    for key, vec in E.seen.items():
+                        num = [vec.data[r] - E0.data[r] for r in range(m)]
+                        cr = col[0]
+                        if len(cr.t) != 2:
+                            continue
+                        coefs = {mm: cc for mm, cc in cr.t.items()}
+                        nt = num[0].t
+                        if set(coefs) != set(nt) or not nt:
+                            continue
+                        ratio = None
+                        ok = True
+                        for mm in nt:
+                            q = Fraction(nt[mm]) / Fraction(coefs[mm])
+                            ratio = q if ratio is None else ratio
+                            ok = ok and q == ratio
+                        if ok and all((col[r].scale(ratio) == num[r]) for r in range(m)):
+                            match = (key, ratio)
+                            break
+                    if match is None:
+                        raise ObFail("%scolumn %d of the Jacobian of vertex %d is not (E(perturbed) - E(unperturbed)) / eps for any evaluated configuration: %s" % (label, d, k, col[0].short(120)))
+                    key, eps = match
+                    eps_seen.add(eps)
+                    # the perturbed configuration must be: vertex k moved by boxplus with eps * e_d, everything else untouched
+                    delta = Arr([Poly.const(eps if j == d else 0) for j in range(c)], 1)
+                    moved = it.call_method(originals[k], "__iadd__", [delta])
+                    exp_cfg = [moved if j == k else originals[j] for j in range(len(vtypes))]
+                    exp_key = tuple((p.cls, tuple(x.key() for x in p.data)) for p in exp_cfg)
+                    if key != exp_key:
+                        raise ObFail("%scolumn %d of the Jacobian of vertex %d is a difference quotient, but not at pose [+] eps*e_%d with the other "
+                                     "vertices (and the other coordinates) unperturbed" % (label, d, k, d))
+        verify("")
+        if second_state:
+            # the same edge at another state (poses overwritten in place): nothing learned in the first call may be reused
+            for k, v in enumerate(verts):
+                q = sym_pose(vtypes[k], "y%d" % k, unit=True)
+                ga(v, "pose").data[:] = list(q.data)
+            verify("second evaluation after the poses changed: ")
         if len(eps_seen) != 1:
             raise ObFail("different step sizes are used: %s" % sorted(map(float, eps_seen)))
         eps = eps_seen.pop()
